@@ -338,6 +338,28 @@ func check(w *world) {
 				if op.plan.use == useReadOnly {
 					o.Probe("read-only-client-" + path)
 				}
+				if op.plan.use == useIdle {
+					// second round trip after the stream idled for twice the listener's negotiation timeout:
+					// no fault touches an established stream in any stratum, so it must work and be answered
+					// by the same handler run
+					var hiv *invocation
+					if len(ivs) > 0 {
+						hiv = ivs[0]
+					}
+					switch {
+					case op.use2Err != "":
+						side := "dialer"
+						herr := ""
+						if hiv != nil && strings.HasPrefix(hiv.endErr, "later reply") {
+							side, herr = "listener", hiv.endErr
+						}
+						o.Violate("C07/stream-broke-after-negotiation/"+side, "%s: first round trip fine, after %v idle the second one failed on the dialer with %q (handler: %q) on a healthy connection", desc, op.idled, op.use2Err, herr)
+					case op.reply2 != fmt.Sprintf("%d|%s|%s", id, seen, op.nonce2):
+						o.Violate("C07/cross-talk/second-reply", "%s: second nonce %s answered with %q (first reply %q)", desc, op.nonce2, op.reply2, op.reply)
+					default:
+						o.Probe("second-round-trip-after-idle-" + path)
+					}
+				}
 				if op.plan.use == useDuplex {
 					o.Probe("first-read-races-first-write-" + path)
 				}
@@ -382,6 +404,11 @@ func check(w *world) {
 		}
 	}
 	for _, iv := range w.invs {
+		for _, n2 := range iv.nonces {
+			if op := byNonce[iv.nonce]; op == nil || n2 != op.nonce2 || op.nonce2 == "" {
+				o.Violate("C07/cross-talk/unknown-nonce", "%s (first nonce %q) later received %q, which its dialer never sent on that stream", iv.in, iv.nonce, n2)
+			}
+		}
 		if iv.extra > 0 {
 			o.Violate("C07/cross-talk/extra-bytes", "%s (round %d, nonce %q) received %d bytes beyond the nonce", iv.in, iv.round, iv.nonce, iv.extra)
 		}
